@@ -16,23 +16,27 @@ set_option linter.unusedSectionVars false
 /-- **Linear codes, one polynomial.**  For every linear row encoder `E` (hypothesis `Encodes`: the
 scheme's `encode` computes a linear map of codeword length `k ≥ 2` on rows), every matrix shape
 `compute_dimensions` returns, every column hash and Merkle hashes, every point whose `tensor` has one
-entry of `b` per row, every sponge output (`n_rows` coefficients `r`, any number of positions
+entry of `a` per column and one of `b` per row (`ha`, `hb`: a point with the right number of
+coordinates — `ha` is needed since fix D23, `check` refuses a point of another length; both are
+automatic for a univariate point, `lincode_tensor_univariate`, and for a multilinear point on a
+power-of-two shape, `lincode_tensor_multilinear`), every sponge output (`n_rows` coefficients `r`, any number of positions
 `< n_ext_cols`), with and without the well-formedness check: `commit` succeeds, `open` succeeds on
 its outputs, and `check` accepts the value `⟨b·M, a⟩`. -/
 theorem lincode_complete_one (pp : Params F D) (point : Point F) (coeffs : List F)
     (E : List F → List F) (k : Nat) (h : Encodes pp coeffs E k) (a b : List F) (o : Oracle F)
     (ht : tensor point (coeffMat pp.dims coeffs).m (coeffMat pp.dims coeffs).n = .ok (a, b))
-    (hb : b.length = (coeffMat pp.dims coeffs).n)
+    (ha : a.length = (coeffMat pp.dims coeffs).m) (hb : b.length = (coeffMat pp.dims coeffs).n)
     (hr : o.r.length = (coeffMat pp.dims coeffs).n) (hi : ∀ i ∈ o.indices, i < k) :
     ∃ c st π, commit pp coeffs = .ok (c, st) ∧ openOne pp point c st o = .ok π ∧
       checkOne pp point c
         (dot (vecMat b (coeffMat pp.dims coeffs).rows (coeffMat pp.dims coeffs).m) a) π o
         = .ok true :=
   ⟨_, _, _, commit_eq pp coeffs E k h, openOne_eq pp point coeffs E k h a b o _ ht hb hr hi,
-    checkOne_honest pp point coeffs E k h a b o ht hi⟩
+    checkOne_honest pp point coeffs E k h a b o ht ha hb hi⟩
 
 /-- **Linear codes, the whole run.**  For a list of polynomials, each in the domain (`HonestRun`:
-linear encoder on its rows, `tensor` defined, oracle outputs of the right size and range):
+linear encoder on its rows, `tensor` defined with vectors of the lengths of the matrix, oracle outputs
+of the right size and range):
 `commit` on all, `open` on the commitments and states, `check` on the claimed values
 `⟨bᵢ·Mᵢ, aᵢ⟩` gives `Ok(true)`. -/
 theorem lincode_complete (pp : Params F D) (point : Point F) (polys : List (List F))
@@ -111,13 +115,15 @@ theorem lincode_brakedown_is_linear (bp : BParams F) (h : shapeOk bp = true) :
 `ZMod 101`), with and without well-formedness; the run evaluates to `Ok(true)` -/
 example : HonestRun (toyPP true) (.uni 5) [1, 2, 3] ⟨[7, 9], [2, 0, 3]⟩ where
   enc := ⟨toyE, 4, toy_encodes true _ (by decide), by decide⟩
-  tens := ⟨_, _, rfl, by decide⟩
+  tens := ⟨_, _, rfl, by decide, by decide⟩
   rlen := by decide
 example : toyRun true (.uni 5) [1, 2, 3] ⟨[7, 9], [2, 0, 3]⟩ (evalPoly [1, 2, 3] 5) = .ok true := by
   decide
 example : toyRun false (.uni 5) [1, 2, 3] ⟨[], [1, 1]⟩ (evalPoly [1, 2, 3] 5) = .ok true := by
   decide
-example : toyRun true (.uni 5) [] ⟨[7, 9], [2]⟩ 0 = .ok true := by decide
+/-- the zero polynomial with no coefficients is committed as `[0]` (a `2 × 1` matrix, codewords of
+length 2) -/
+example : toyRun true (.uni 5) [] ⟨[7, 9], [1]⟩ 0 = .ok true := by decide
 example : toyRun true (.ml [3, 8]) [1, 2, 3, 4] ⟨[7, 9], [2, 0, 3]⟩ (evalMLE [1, 2, 3, 4] [3, 8])
     = .ok true := by decide
 example : (2 : Nat) ≤ ([3, 8] : List K).length ∧ ([1, 2, 3, 4] : List K).length = 2 ^ 2 := by decide
